@@ -1,8 +1,8 @@
-use c04::tree::{Case, Form, IdForm, Incoming, Item, Node, RngKind};
+use c04::tree::{Case, Form, IdForm, Incoming, Item, Node, RngKind, RunHow};
 use vcore::proptest::prelude::*;
 use vcore::Level;
 
-const RULE: &str = "a case is a span tree as data (<=24 span nodes, nesting depth <=6): every node has a form (attribute on sync fn / async fn, new_span! with Frame::call / Frame::enter / Frame::in_future, guard: parameter sync / async, when: parameter, ok_lvl/err_lvl Result-returning sync / async fn, and four hand-off forms where the frame returned by new_span! itself is moved to a fresh thread and entered there by call / in_fn / enter (guard completed there or back on the parent inside the frame) or is polled through in_future alternately on fresh threads and the awaiting thread), an enabled flag (disabled = rejected by the runtime filter through its module, or by `when`), and a body of child spans, emit! events, SpanCtxt::current checks, yields, thread hops (with or without a carried Frame::current, entered by call or in_future as the very first act of the fresh thread, which afterwards goes on with unrelated work of its own: checks, events, root spans) planned panics (quiet resume_unwind) that leave any of these scopes by unwinding up to a catch_unwind (explicit Catch item, in async code around every poll; or the top of the hop / hand-off thread) after which the same thread is used on, and joins of async tasks polled by a generated schedule; optionally incoming trace/span ids are pushed before the root as typed values, lower/upper-case hex strings or integers; the rng is a non-repeating counter (or yields nothing). It is interpreted by fixed macro call sites on a private runtime and judged relationally from the recorded events. Non-trivial = span nesting depth >=3, or a disabled node with an enabled descendant, or an async join, or a thread hop, or incoming ids given as hex strings.";
+const RULE: &str = "a case is a span tree as data (<=24 span nodes, nesting depth <=6): every node has a form (attribute on sync fn / async fn, new_span! with Frame::call / Frame::enter / Frame::in_future, guard: parameter sync / async, when: parameter, ok_lvl/err_lvl Result-returning sync / async fn, and four hand-off forms where the frame returned by new_span! itself is moved to a fresh thread and entered there by call / in_fn / enter (guard completed there or back on the parent inside the frame) or is polled through in_future alternately on fresh threads and the awaiting thread), an enabled flag (disabled = rejected by the runtime filter through its module, or by `when`), and a body of child spans, emit! events, SpanCtxt::current checks, yields, thread hops (with or without a carried Frame::current, entered by call or in_future as the very first act of the fresh thread, which afterwards goes on with unrelated work of its own: checks, events, root spans) non-span frames (Frame::current / Frame::push with a plain property) captured at one point — typically at top level before any span — and entered later somewhere else (inside spans, on other threads) by call / enter guard / in_future / on a fresh thread, planned panics (quiet resume_unwind) that leave any of these scopes by unwinding up to a catch_unwind (explicit Catch item, in async code around every poll; or the top of the hop / hand-off thread) after which the same thread is used on, and joins of async tasks polled by a generated schedule; optionally incoming trace/span ids are pushed before the root as typed values, lower/upper-case hex strings or integers; the rng is a non-repeating counter (or yields nothing). It is interpreted by fixed macro call sites on a private runtime and judged relationally from the recorded events. Non-trivial = span nesting depth >=3, or a disabled node with an enabled descendant, or an async join, or a thread hop, or incoming ids given as hex strings.";
 
 const ASSUMPTIONS: [&str; 6] = [
     "the oracle never predicts which id the rng hands out: each enabled span's ids are read from its own span event (identified by a unique module name) and only the relations stated by the property are demanded",
@@ -57,6 +57,8 @@ fn body(depth_left: u32) -> BoxedStrategy<Vec<Item>> {
         5 => leaf(),
         8 => (form(), prop::bool::weighted(0.75), inner.clone(), after_items()).prop_map(|(form, enabled, items, after)| Item::Span(Node { after: if form.is_sync_handoff() { after } else { Vec::new() }, form, enabled, items })),
         2 => inner.clone().prop_map(|items| Item::Catch { items }),
+        2 => any::<bool>().prop_map(|props| Item::CaptureFrame { props }),
+        3 => (prop_oneof![3 => Just(RunHow::Call), 3 => Just(RunHow::EnterGuard), 3 => Just(RunHow::InFuture), 1 => Just(RunHow::OtherThread)], inner.clone()).prop_map(|(how, items)| Item::RunFrame { how, items }),
         1 => (prop::bool::weighted(0.7), any::<bool>(), inner.clone(), after_items()).prop_map(|(carry, fut, items, after)| Item::Hop { carry, fut, items, after }),
         1 => (any::<bool>(), prop::bool::weighted(0.4), prop::collection::vec(inner, 1..4), prop::collection::vec(0u8..16, 0..10))
             .prop_map(|(carry, migrate, tasks, schedule)| Item::Join { carry, migrate, tasks, schedule }),
@@ -81,6 +83,7 @@ fn limit(items: &mut Vec<Item>, budget: &mut usize, depth: usize, caught: bool) 
             }
             Item::Panic if !caught => *it = Item::Event,
             Item::Catch { items } => limit(items, budget, depth, true),
+            Item::RunFrame { how, items } => limit(items, budget, depth, caught || *how == RunHow::OtherThread),
             Item::Hop { items, after, .. } => {
                 limit(items, budget, depth, true);
                 limit(after, budget, 0, false);
@@ -148,9 +151,13 @@ fn case() -> impl Strategy<Value = Case> {
             .prop_map(|(trace, span, form)| Some(Incoming { trace: ((trace >> 64) as u64, trace as u64), span, form })),
     ];
     let rng = prop_oneof![12 => any::<u64>().prop_map(RngKind::Counter), 1 => Just(RngKind::Empty)];
-    (rng, incoming, panic_prologue(), body(7)).prop_map(|(rng, incoming, prologue, mut items)| {
+    (rng, incoming, prop::collection::vec(any::<bool>(), 0..4), panic_prologue(), body(7)).prop_map(|(rng, incoming, captures, prologue, mut items)| {
         if let Some(p) = prologue {
             items.insert(0, p);
+        }
+        // what a dispatcher captures when jobs are submitted: frames made before any span exists
+        for props in captures {
+            items.insert(0, Item::CaptureFrame { props });
         }
         let mut budget = 24;
         limit(&mut items, &mut budget, 0, false);
@@ -169,6 +176,11 @@ fn main() {
         s.require("async-join-polls-migrate-threads", 50);
         s.require("thread-hop-carried-frame", 100);
         s.require("integer-ids", 100);
+        s.require("foreign-frame:captured-outside-span/entered-inside-enabled-span", 200);
+        s.require("foreign-frame:captured-outside-span/entered-by-call", 100);
+        s.require("foreign-frame:captured-outside-span/entered-by-enter-guard", 100);
+        s.require("foreign-frame:captured-outside-span/entered-by-in-future", 100);
+        s.require("captured-frame:captured-inside-span/entered-elsewhere", 50);
         s.require("exit:panic-sync-call", 200);
         s.require("exit:panic-async", 200);
         s.require("exit:panic-enter-guard", 50);
